@@ -1,6 +1,7 @@
 import VD.Val
 import VM.Cache
 import VM.Executor
+import VM.SetupIndep
 /-! Line-protocol driver for histories (slice H): one DAG table, several instances, operations
     call / executor run / setup / fork (deep copy) / restart-from-cache.
 
@@ -25,6 +26,8 @@ import VM.Executor
     O <inst> xrun <xid> <na> <value>^na                    the kept executor object is called (VM.xRun on the instance AS IT IS NOW):
                                                            -> <id> <opidx> REFUSED  if the object was used before, else like call
     E
+    -> <id> -1 REGION closed|open      (once per table: `VM.regionClosedB` on the setup nodes — the hypothesis of the C15 / C11
+                                        semantic theorems; every table the real constructor accepts must be `closed`)
     -> <id> <opidx> OK|FAIL E <entered…> R <value or -> per node
 -/
 open VM VD TM
@@ -128,6 +131,10 @@ def main : IO Unit := do
       let mut insts : Array (Inst Val) := #[⟨dag, res0⟩]
       let mut files : Nat → Option (File Val) := fun _ => none
       let mut xobjs : Array (Nat × XObj) := #[]
+      -- the hypothesis of C15_call_after_history_is_fresh / C11_setup_value_independent_of_arguments, decided on this table:
+      -- the setup nodes form a region closed under all references that holds no parameter
+      let closed := regionClosedB dag.recOf dag.nodes dag.isSetup && dag.params.all (fun p => !dag.isSetup p)
+      IO.println s!"{sid} -1 REGION {if closed then "closed" else "open"}"
       i := i + 1 + n
       let mut idx := 0
       while i < lines.size && lines[i]! != "E" do
